@@ -131,7 +131,8 @@ def path_api(patterns):
             defs.append(dict(type=typ, patterns=[p]))
             reqf.append(dict(name=f'n{i}', **({'ref': typ} if (i // 3) % 2 == 0 else {'child_ref': typ})))
         else:
-            msgs.append(dict(name=f'R{i}', resource=dict(type=typ, patterns=[p]), fields=[dict(name='name')]))
+            # every fifth message resource declares the wildcard as a SECOND pattern: helpers are built from the first pattern
+            msgs.append(dict(name=f'R{i}', resource=dict(type=typ, patterns=[p, '*'] if i % 5 == 4 and p != '*' else [p]), fields=[dict(name='name')]))
             (reqf if how == 0 else midf).append(dict(name=f'r{i}', type=f'R{i}'))
     msgs += [dict(name='Mid', fields=midf), dict(name='Req', fields=reqf),
              dict(name='Resp', fields=[dict(name='mid', type='Mid')])]
